@@ -45,9 +45,11 @@ fi
 cp ocaml/prelude.ml build/prelude.ml
 cd build
 if [ ! -x oracle ] || [ model.ml -nt oracle ] || [ driver.ml -nt oracle ] || [ prelude.ml -nt oracle ]; then
-  timeout 600 ocamlfind ocamlopt -O3 -w -a model.mli model.ml prelude.ml driver.ml -o oracle >>"$LOG" 2>&1 \
-   || timeout 600 ocamlfind ocamlopt -w -a model.mli model.ml prelude.ml driver.ml -o oracle >>"$LOG" 2>&1 \
+  # built beside the old binary and moved into place: a check that is still talking to the old oracle keeps its open file
+  timeout 600 ocamlfind ocamlopt -O3 -w -a model.mli model.ml prelude.ml driver.ml -o oracle.new >>"$LOG" 2>&1 \
+   || timeout 600 ocamlfind ocamlopt -w -a model.mli model.ml prelude.ml driver.ml -o oracle.new >>"$LOG" 2>&1 \
    || { echo "OCAML-BUILD-FAILED"; tail -30 "$LOG"; exit 4; }
+  mv -f oracle.new oracle
 fi
 if [ $PARTIAL -eq 1 ]; then exit 5; fi
 echo "BUILD-OK"
